@@ -529,11 +529,17 @@ impl<S: Storage> Builder<S> {
             .register(id, span.clone(), output_row_counter.clone());
 
         let (tx, rx) = async_broadcast::broadcast(16);
+        #[cfg(risinglight_verif)]
+        let verif_name = format!("{id}.{name}");
         let handle = tokio::task::Builder::default()
             .name(&format!("{id}.{name}"))
             .spawn(
                 async move {
+                    #[cfg(risinglight_verif)]
+                    let mut verif_idx = 0usize;
                     while let Some(item) = stream.next().await {
+                        #[cfg(risinglight_verif)]
+                        let item = verif_item(&verif_name, &mut verif_idx, item).await;
                         if let Ok(chunk) = &item {
                             output_row_counter.inc(chunk.cardinality() as _);
                         }
@@ -547,11 +553,27 @@ impl<S: Storage> Builder<S> {
                 .timed(span),
             )
             .expect("failed to spawn task");
+        #[cfg(risinglight_verif)]
+        crate::verif::task_spawned(handle.id(), &format!("{id}"));
 
         StreamSubscriber {
             rx: rx.deactivate(),
             handle: Arc::new(AbortOnDropHandle(handle)),
         }
+    }
+}
+
+/// Verification hook: yield point and fault point before an operator emits an item.
+#[cfg(risinglight_verif)]
+async fn verif_item(name: &str, idx: &mut usize, item: Result<DataChunk>) -> Result<DataChunk> {
+    use crate::verif::ItemFault;
+    crate::verif::gate("executor.item").await;
+    let fault = crate::verif::operator_item(name, *idx);
+    *idx += 1;
+    match fault {
+        ItemFault::None => item,
+        ItemFault::Error => Err(ExecutorError::aborted()),
+        ItemFault::Panic => panic!("verif: injected operator panic"),
     }
 }
 
